@@ -5,7 +5,8 @@
              (b) predict = first arg-max of the predict_proba row;
              (c) predict_proba lies in an enclosure (Coq Interval, 64 bits) of the posterior
                  membership probabilities of the published mixture (weights, means, precisions),
-                 widened by a stated bound on the floating-point evaluation error.
+                 widened by a stated bound on the floating-point evaluation error:
+                 2^-44 (4 + |ln w sqrt(det P)| + d^2 |x-mu|_inf^2 |P|_max + d^2 |S|_max |P|_max) in the log domain.
     oracle : the conjuncts of the verified checker [gmm_ok] (C10/Model.v), one bit each. *)
 From Coq Require Import List NArith ZArith QArith Bool Floats.
 From LinfaVerif Require Export Common.Num Common.NdSum Common.Run Common.QF Common.LDL C10.Model.
@@ -238,7 +239,15 @@ Definition corr_posterior (c : case) : N :=
             let comps : list comp :=
               map (fun t => let '(mu, P, cst) := t in (mu, scalemB P, maxabs P, cst))
                   (combine (combine (Qm (c_means c)) Ps) consts) in
-            let Lmax := fold_left (fun a c => Qmax' a (Qmax' (Qabs' (fst c)) (Qabs' (snd c)))) cb 0%Q in
+            let Lmax0 := fold_left (fun a c => Qmax' a (Qmax' (Qabs' (fst c)) (Qabs' (snd c)))) cb 0%Q in
+            (* conditioning: the enclosure uses the published precisions P = fl(C C^T), the implementation its
+               Cholesky factor C; entries differ by <= d eps |P|_max, which moves ln det P by up to
+               tr(|P^-1| |dP|) <= d^3 eps |S|_max |P|_max (P^-1 ~ S) - added to the allowance as
+               2^-44 d^2 |S|_max |P|_max *)
+            let Cmax := fold_left Qmax'
+                          (map (fun PS => inject_Z (Z.of_nat (d * d)) * maxabs (fst PS) * maxabs (Qm (snd PS)))
+                               (combine Ps (c_covs c))) 0%Q in
+            let Lmax := Lmax0 + Cmax in
             fold_left N.lor
               (map (fun xr => post_row d comps Lmax (Qv (fst xr)) (Qv (snd xr)))
                    (combine (c_query c) (c_proba c))) 0%N
